@@ -115,6 +115,9 @@ struct Cfg {
     probe_depth: usize,
     /// operations executed (and checked) before the search starts; reported paths include them
     prefix: Vec<Op>,
+    /// the last operation of a maximal-length sequence is a settlement or a fork (ticks and pins
+    /// at the last position can only repeat the isolation checks made one level earlier)
+    last_level_settle_fork_only: bool,
 }
 
 fn prog(steps: Vec<Step>) -> Program {
@@ -1866,6 +1869,11 @@ fn run_cfg(r: &Report, cfg: &Cfg, budget_frac: f64) {
                 probes(&cx, s, path);
                 if path.len() >= depth {
                     Vec::new()
+                } else if cfg.last_level_settle_fork_only && path.len() + 1 == depth {
+                    menu(cfg, s)
+                        .into_iter()
+                        .filter(|o| matches!(o, Op::Settle(..) | Op::Fork { .. }))
+                        .collect()
                 } else {
                     menu(cfg, s)
                 }
@@ -1940,6 +1948,7 @@ fn configs(r: &Report) -> Vec<Cfg> {
         depth: if quick { 5 } else { 6 },
         probe_depth: if quick { 3 } else { 6 },
         prefix: vec![],
+        last_level_settle_fork_only: quick,
     }];
     v.push(Cfg {
         name: "structure",
@@ -1951,6 +1960,7 @@ fn configs(r: &Report) -> Vec<Cfg> {
         depth: if quick { 4 } else { 5 },
         probe_depth: if quick { 3 } else { 5 },
         prefix: vec![],
+        last_level_settle_fork_only: quick,
     });
     v.push(Cfg {
         name: "two-strands",
@@ -1962,6 +1972,7 @@ fn configs(r: &Report) -> Vec<Cfg> {
         depth: if quick { 4 } else { 6 },
         probe_depth: if quick { 3 } else { 5 },
         prefix: vec![Op::Fork { k: 1, src: 0, t: 0 }],
+        last_level_settle_fork_only: quick,
     });
     if !quick {
         v.push(Cfg {
@@ -1974,6 +1985,7 @@ fn configs(r: &Report) -> Vec<Cfg> {
             depth: 5,
             probe_depth: 4,
             prefix: vec![],
+        last_level_settle_fork_only: quick,
         });
     }
     v
@@ -2026,6 +2038,7 @@ fn replay(r: &Report, file: &std::path::Path) {
             depth: 64,
             probe_depth: 64,
             prefix: vec![],
+            last_level_settle_fork_only: false,
         })
     }) else {
         return;
@@ -2102,15 +2115,11 @@ fn main() {
         return;
     }
     empty_parent_probe(&r, &cfgs[0]);
-    // budget fractions of the wall cap at which each configuration stops expanding
-    let n = cfgs.len();
-    for (i, cfg) in cfgs.iter().enumerate() {
-        let frac = if r.quick() {
-            0.9
-        } else {
-            0.25 + 0.65 * (i as f64 + 1.0) / n as f64
-        };
-        run_cfg(&r, cfg, frac);
+    // Configurations are independent searches: run them side by side (each BFS level is itself
+    // expanded in parallel; all counters are order-independent sums).
+    {
+        use rayon::prelude::*;
+        cfgs.par_iter().for_each(|cfg| run_cfg(&r, cfg, 0.9));
     }
     // vacuity guards
     let c = |n: &str| r.counter_value(n);
